@@ -19,7 +19,8 @@ from props import c01
 
 LEVEL = "proof"
 THEOREMS = ["C15_dynamic_lookup_guarded", "C15_decoupled", "C15_nonvacuous"]
-MECH = [("copy", copy.copy), ("deepcopy", copy.deepcopy), ("pickle", lambda o: pickle.loads(pickle.dumps(o)))]
+MECH = [("copy", copy.copy), ("deepcopy", copy.deepcopy), ("pickle", lambda o: pickle.loads(pickle.dumps(o))),
+        ("pickle-protocol-0", lambda o: pickle.loads(pickle.dumps(o, protocol=0))), ("pickle-protocol-2", lambda o: pickle.loads(pickle.dumps(o, protocol=2)))]
 
 
 def object_kinds():
